@@ -22,3 +22,14 @@ INVARIANT Inv_R_doc_refs__accepted
 INVARIANT Inv_R_doc_refs__exception
 INVARIANT Inv_R_pattern_anchored__accepted
 INVARIANT Inv_R_pattern_anchored__exception
+INVARIANT Count_R_acyclic__rejected
+INVARIANT Count_R_bases_exist__rejected
+INVARIANT Count_R_unique_names__rejected
+INVARIANT Count_R_reserved__rejected
+INVARIANT Count_R_no_redeclare__rejected
+INVARIANT Count_R_ctor_matches_props__rejected
+INVARIANT Count_R_optional_default_none__rejected
+INVARIANT Count_R_type_shapes__rejected
+INVARIANT Count_R_unique_inv_desc__rejected
+INVARIANT Count_R_doc_refs__rejected
+INVARIANT Count_R_pattern_anchored__rejected
